@@ -323,8 +323,8 @@ impl Prop for C19 {
     }
     fn work(&self, tier: Tier) -> Work {
         match tier {
-            Tier::Quick => Work { cases_per_worker: 4000, workers: 8 },
-            Tier::Thorough => Work { cases_per_worker: 100_000, workers: 16 },
+            Tier::Quick => Work { cases_per_worker: 8000, workers: 8 },
+            Tier::Thorough => Work { cases_per_worker: 200000, workers: 16 },
         }
     }
     fn strategy(&self, _tier: Tier) -> BoxedStrategy<Sc19> {
